@@ -14,6 +14,14 @@ from . import core
 H = (1.0, 0.5, 0.25)          # resolution per axis (Caching.tla: Spacing / 4)
 ORIGINS = {"origin": (0.0, 0.0, 0.0), "offset": (-3.75, 2.5, 100.0), "fine": (8.0, 8.0, 4.0), "uneven": (1.0, -2.0, 0.5)}      # Caching.tla: Origins / 4
 EXTRA = {"uneven": (0, 1, 3)}        # Caching.tla: ExtraCells (cells per axis beyond n)
+BOUNDS = {"wide": (-7.0, 13.0), "exceeded": (0.5, 1.0), "degenerate": (2.0, 2.0)}        # Caching.tla: Bounds / 4
+
+
+def _btag(fb):
+    if not fb:
+        return ""
+    name = [k for k, b in BOUNDS.items() if b == tuple(fb)]
+    return "[bounds]" if not name or name[0] == "wide" else f"[bounds-{name[0]}]"
 SPACING = {"fine": (0.005, 0.005, 0.005)}       # the "fine" lattice: 5 mm cells eight metres from the origin (a large tokamak); others use H
 POLYS = [(2, -3, 1, 1), (5, 2, 0, 0), (1, 0, -2, 0), (-4, 1, 3, -1)]
 
@@ -52,10 +60,10 @@ def replay(rec, ctx):
     cx = ctx or rec
     dim, n, poly = cx["dim"], cx["n"], POLYS[cx["poly"] - 1]
     viol = []
-    for place, nbe, fb in (("origin", False, None), ("origin", True, (-7.0, 13.0)), ("offset", False, None)):
+    for place, nbe, fb in (("origin", False, None), ("origin", True, BOUNDS["wide"]), ("offset", False, None), ("origin", False, BOUNDS["degenerate"]), ("origin", False, BOUNDS["exceeded"])):
         X0 = ORIGINS[place]
         cache, f = make(dim, n, poly, nbe, fb, place)
-        tag = f"Caching{dim}D" + ("[bounds]" if fb else "") + ("@offset" if place != "origin" else "")
+        tag = f"Caching{dim}D" + _btag(fb) + ("@offset" if place != "origin" else "")
 
         def bad(what, detail):
             viol.append({"sig": f"{tag}:{what}", "detail": f"{detail} | history {json.dumps(rec['h'])[:300]}"})
@@ -104,7 +112,8 @@ def identities(dim, n):
     """node exactness and multilinear exactness on fresh instances (whole area sweep)."""
     out = []
     lin = POLYS[1]
-    for place, fb in (("origin", None), ("origin", (-50.0, 300.0)), ("offset", None), ("fine", None), ("uneven", None), ("uneven", (-50.0, 300.0))):
+    for place, fb in (("origin", None), ("origin", (-50.0, 300.0)), ("offset", None), ("fine", None), ("uneven", None), ("uneven", (-50.0, 300.0)),
+                      ("origin", BOUNDS["degenerate"]), ("uneven", BOUNDS["exceeded"])):
         X0 = ORIGINS[place]
         H = SPACING.get(place, globals()["H"])
         ex = EXTRA.get(place, (0, 0, 0))
@@ -117,7 +126,7 @@ def identities(dim, n):
         for pt in pts[:400]:
             v, w = cache(*pt), ref(*pt)
             if abs(v - w) > tol * max(1.0, abs(w)):
-                out.append({"sig": f"Caching{dim}D{'[bounds]' if fb else ''}{at}:multilinear-function-not-reproduced", "detail": f"at {pt}: {v!r} vs {w!r}"})
+                out.append({"sig": f"Caching{dim}D{_btag(fb) if fb in BOUNDS.values() else ('[bounds]' if fb else '')}{at}:multilinear-function-not-reproduced", "detail": f"at {pt}: {v!r} vs {w!r}"})
                 break
         cub = POLYS[0]
         cache, f = make(dim, n, cub, False, fb, place)
@@ -127,7 +136,7 @@ def identities(dim, n):
         for nd in nodes[:30]:
             v, w = cache(*nd), ref(*nd)
             if abs(v - w) > tol * max(1.0, abs(w)):
-                out.append({"sig": f"Caching{dim}D{'[bounds]' if fb else ''}{at}:not-exact-at-sampling-node", "detail": f"node {nd}: {v!r} vs {w!r}"})
+                out.append({"sig": f"Caching{dim}D{_btag(fb) if fb in BOUNDS.values() else ('[bounds]' if fb else '')}{at}:not-exact-at-sampling-node", "detail": f"node {nd}: {v!r} vs {w!r}"})
                 break
         # a smooth function of unit curvature: the error must stay below the h^2 bound of the cubic interpolant
         # ((5/32) h^2 max|f''| per axis; 3 h^2 is a generous envelope for every dimension)
@@ -183,7 +192,8 @@ def run(v):
         v.add_tlc(res, f"Caching/dim{dim}-N{n}-depth{depth}-poly{poly}")
         tab = [r for r in res.records if "origins" in r][0]
         if {k: tuple(x / 4.0 for x in o) for k, o in tab["origins"].items()} != {k: o for k, o in ORIGINS.items() if k != "fine"} or \
-                {k: tuple(x) for k, x in tab["extracells"].items() if any(x)} != EXTRA or tuple(x / 4.0 for x in tab["spacing"]) != H:
+                {k: tuple(x) for k, x in tab["extracells"].items() if any(x)} != EXTRA or tuple(x / 4.0 for x in tab["spacing"]) != H or \
+                {k: tuple(x / 4.0 for x in b) for k, b in tab["bounds"].items()} != BOUNDS:
             raise core.MachineryError("placement tables of Caching.tla and mbt/c14.py differ")
         edges = [r for r in res.records if "h" in r]
         full = [r for r in edges if len(r["h"]) == depth] or edges
